@@ -337,9 +337,13 @@ func (H) Execute(scAny any, cfg simrt.Config, st *core.Stats) (*simrt.Outcome, *
 	if v := core.OutcomeViolation(out); v != nil {
 		return out, v
 	}
-	if out.Truncated {
+	if out.Truncated && res.returned {
 		return out, core.NoProgress(out)
 	}
+	// (A run that exhausts its steps while the call under test has not returned is
+	// judged like one that ended with the call parked: an implementation may wait by
+	// polling, and for the timed helpers never returning is not a violation by
+	// itself - for the queued receivers it is, and is reported as such below.)
 	// drain what is left in the channel
 	var left []int
 drain:
@@ -402,9 +406,13 @@ func check(sc *Scenario, res *result, logs []peerLog, left []int, cancelAt, clos
 				return &core.Violation{Signature: "recvqueuedfull-count-out-of-range", Detail: fmt.Sprintf("returned %d for a buffer of %d", res.n, len(res.buf))}
 			}
 			got = res.buf[:res.n]
-			for i := res.n; i < len(res.full); i++ {
+			// what the slots of buf after the count hold is nobody's business (an
+			// implementation may clear the buffer first, or leave the zero value of a
+			// receive that found the channel closed there); the array BEHIND the buffer
+			// the caller handed in is the caller's
+			for i := len(res.buf); i < len(res.full); i++ {
 				if res.full[i] != -1 {
-					return &core.Violation{Signature: "recvqueuedfull-wrote-past-count", Detail: fmt.Sprintf("returned %d for a buffer of length %d, but the caller's array is now %v (untouched slots were -1)", res.n, len(res.buf), res.full)}
+					return &core.Violation{Signature: "recvqueuedfull-wrote-past-buffer", Detail: fmt.Sprintf("returned %d for a buffer of length %d, but the caller's array behind it is now %v (it held -1 everywhere)", res.n, len(res.buf), res.full)}
 				}
 			}
 		}
